@@ -37,15 +37,15 @@ type shKey struct {
 }
 
 type shState struct {
-	field  map[shKey]string // current field values
-	stored map[shKey]bool   // written by this function (dirty)
-	cells  map[ssa.Value]string
-	isNil  map[string]bool
-	nonNil map[string]bool
-	fresh  map[string]bool
-	phi    map[*ssa.Phi]string
-	vals   map[ssa.Value]string
-	n      *int
+	field        map[shKey]string // current field values
+	stored       map[shKey]bool   // written by this function (dirty)
+	cells        map[ssa.Value]string
+	isNil        map[string]bool
+	nonNil       map[string]bool
+	fresh        map[string]bool
+	phi          map[*ssa.Phi]string
+	vals         map[ssa.Value]string
+	n            *int
 	delta        int  // net change of storeList.count on this path
 	countUnknown bool // count was set to something other than count±1
 }
